@@ -1,6 +1,8 @@
 package checks
 
 import (
+	"encoding/json"
+
 	"verif/explore"
 )
 
@@ -17,7 +19,17 @@ func init() {
 	register(&Check{
 		ID:     "C06",
 		Level:  "model_checking",
-		Worker: seqWorker(nil),
+		Worker: func(task []byte) []byte {
+			var probe struct {
+				Cmp string `json:"pick_cmp"`
+			}
+			if json.Unmarshal(task, &probe) == nil && probe.Cmp != "" {
+				var t pickTask
+				json.Unmarshal(task, &t)
+				return explore.MustJSON(runPick(&t))
+			}
+			return seqWorker(nil)(task)
+		},
 		Main: func(c *explore.Ctx) {
 			var specs []seqSpec
 			add := func(cfg string, alpha []string, d int, probes []string) {
@@ -37,8 +49,11 @@ func init() {
 				add("flushy/"+k, a, d1, p)
 				add("deep/"+k, a, d2, p)
 			}
+			pp := explore.NewPool(0, "worker", "C06")
+			runPickPhase(c, pp, c.Tier == "quick")
+			pp.Close()
 			runSpecs(c, "C06", specs,
-				"breadth-first search over operation sequences (as C01, plus transactions); a scheduler step hook validates every version at the instant session.stVersion changes, by reading every live table back from storage with table.NewReader; x_versions_checked / x_tables_read_back count the monitor's work",
+				"breadth-first search over operation sequences (as C01, plus transactions); a scheduler step hook validates every version at the instant session.stVersion changes, by reading every live table back from storage with table.NewReader; x_versions_checked / x_tables_read_back count the monitor's work; plus compaction-input closure: every synthetic layout of <=3 level-0 tables (any overlaps, as intervals over 5 (thorough 6) keys) x every set of <=3 disjoint level-1 tables x 3 comparers is given to the real newCompaction/expand/getOverlaps for every seeding (each level-0 table, every key range): no level-1 table outside the inputs may overlap the inputs' joint range, no level-0 table outside the inputs may overlap the level-0 inputs (pick_* counters)",
 				[]string{"3-key alphabets per comparer; layouts forced by tiny option values", "versions installed by Recover are checked in C19, versions after a crash in C04"})
 		},
 	})
